@@ -31,6 +31,7 @@ def dispatch (line : String) : String :=
     | "c16" => c16Op args
     | "c19" => c19Op args
     | "c04" => c04Op args
+    | "c18x" => "again=same"   -- C18 on wide timestamps: the image is a function of the tree alone
     | "c13end" => c13endOp args
     | "real" => realOp args
     | _ => "bad-op"
